@@ -25,6 +25,7 @@ Section WithH.
   (* what happened when validation was due for the TSIG record (owner, rd) starting at `start` *)
   Definition decided (w : bytes) (kr : keyring) (rmac : bytes) (now : Z) (multi : bool)
              (owner : name) (rd : tsig) (start : nat) (ctx ctx' : option hctx) : Prop :=
+    (exists e p, tsig_from_wire w e p = Ok rd) /\
     exists ko, find_key kr owner (t_alg rd) = Ok ko /\
       match ko with
       | Some k => validate H w k owner rd now rmac start ctx multi = Ok ctx'
@@ -56,6 +57,7 @@ Section WithH.
       inversion E; subst st'; clear E. cbn [r_recs r_tsig r_ctx].
       split; [assumption|]. split; [assumption|].
       exists (fst np), t. rewrite S3, ET, CA. split; [reflexivity|]. split; [reflexivity|].
+      split; [eexists; eexists; exact Qrd|].
       exists o. split; [assumption|].
       destruct o as [k|]; [assumption|]. congruence.
     - left.
